@@ -114,6 +114,13 @@ int main(int argc, char** argv)
                     env[c.item.env] = c.env_value;
                 one(D, c.argv, env);
                 singles++;
+                // ambient state: the same configuration with a stale errno left by the caller (ERANGE, EINVAL, EDOM)
+                for (const char* e : { "34", "22", "33" })
+                {
+                    Env ea = env;
+                    ea[ref::AMBIENT_ERRNO] = e;
+                    one(D, c.argv, ea);
+                }
                 // the same configuration on a parser that was used before its declaration was complete (the item, or its short
                 // name, is added through a kept reference after usage() and warm-up parses) or that held another declaration
                 Decl Dprev;
